@@ -31,6 +31,8 @@ type Env struct {
 	Err     string         // harness-level problem (lost barrier, timeout)
 	Retries int            // channel barriers that had to be re-sent
 	Dead    map[int64]bool // channel workers found stopped (Run returned): no barriers through them any more
+	// dones: the workers' done channels, read (hook) while the manager was quiescent
+	dones map[int64]<-chan struct{}
 }
 
 func (e *Env) record(ev Event, snap Snapshot) {
@@ -144,6 +146,10 @@ func Start(w *World, snap Snapshot) *Env {
 	e.Store = &Store{state: snap.State, has: snap.Has, chans: map[int64]int{}, env: e}
 	for c, p := range snap.Chans {
 		e.Store.chans[c] = p
+		w.stored[c] = true
+		if !w.hashUnknown(c) { // loadChannels skips the others
+			w.live[c], w.Started[c] = true, true
+		}
 	}
 	e.M = updates.New(updates.Config{
 		Handler: handler{e},
@@ -162,7 +168,7 @@ func Start(w *World, snap Snapshot) *Env {
 		},
 		OnTooLong:    func() { e.record(Event{Kind: "L"}, Snapshot{}) },
 		Storage:      e.Store,
-		AccessHasher: hasher{},
+		AccessHasher: hasher{w},
 	})
 	ctx, cancel := context.WithCancel(context.Background())
 	e.cancel = cancel
@@ -193,7 +199,9 @@ func Start(w *World, snap Snapshot) *Env {
 func (w *World) InitialSnapshot() Snapshot {
 	c := map[int64]int{}
 	for k, v := range w.C0 {
-		c[k] = v
+		if !w.Fresh[k] {
+			c[k] = v
+		}
 	}
 	return Snapshot{State: updates.State{Pts: w.P0, Qts: w.Q0, Date: Date0, Seq: 0}, Has: true, Chans: c}
 }
@@ -278,6 +286,7 @@ func (e *Env) chanBarrier(c int64) bool {
 		tl := &tg.UpdateChannelTooLong{ChannelID: c}
 		tl.SetPts(1 << 30)
 		e.Push(&tg.Updates{Updates: []tg.UpdateClass{tl}})
+		sent, lastLook := time.Now(), time.Now()
 		waitUntil := time.Now().Add(20 * time.Second)
 		for answered := false; !answered && time.Now().Before(waitUntil); {
 			select {
@@ -285,8 +294,23 @@ func (e *Env) chanBarrier(c int64) bool {
 				return true
 			case <-time.After(2 * time.Millisecond):
 				// a worker that has returned from Run will never answer: that is a fact about the
-				// implementation (its done channel is closed), not latency
-				if updates.VerifC02ChannelStopped(e.M, c) {
+				// implementation (its done channel is closed), not latency. The done channel was read
+				// at the last quiescent point; for a worker started since then the manager's channel
+				// table is consulted only after a long silence and with the main loop idle.
+				stopped := false
+				if d, ok := e.dones[c]; ok {
+					select {
+					case <-d:
+						stopped = true
+					default:
+					}
+				} else if time.Since(sent) > 3*time.Second && time.Since(lastLook) > time.Second {
+					lastLook = time.Now()
+					if e.mainBarrier() {
+						stopped = updates.VerifC02ChannelStopped(e.M, c)
+					}
+				}
+				if stopped {
 					if e.Dead == nil {
 						e.Dead = map[int64]bool{}
 					}
@@ -306,10 +330,12 @@ func (e *Env) chanBarrier(c int64) bool {
 
 // Settle waits until the main loop and all channel workers are idle with empty queues.
 func (e *Env) Settle() {
-	chans := e.W.Channels()
 	for iter := 0; iter < 100 && e.Err == ""; iter++ {
 		before := e.progress()
 		e.mainBarrier()
+		// the channels that have a worker: a barrier pushed now is handled after handleChannel has
+		// registered the worker (it asked the storage before), never before
+		chans := e.W.StartedChannels()
 		for _, c := range chans {
 			e.chanBarrier(c)
 		}
@@ -319,7 +345,9 @@ func (e *Env) Settle() {
 		for _, c := range chans {
 			e.chanBarrier(c)
 		}
-		if e.progress() == before && ext == 0 && internal == 0 && aff == 0 {
+		if e.progress() == before && ext == 0 && internal == 0 && aff == 0 && len(e.W.StartedChannels()) == len(chans) {
+			// quiescent: nobody writes the manager's channel table now
+			e.dones = updates.VerifC02ChannelDones(e.M)
 			return
 		}
 	}
